@@ -49,15 +49,20 @@ def run(cls, ov, addrs, stats=None, sheet='S'):
     for a, v in ov:
         s, a = (sheet, a) if isinstance(a, str) else a
         cells.append(D.Cell(s, *D.split_a1(a), value=v))
-    if len(cells) > 1 and addrs:
-        # two batches with a query in between: the final state is that of one batch (C04), an implementation that
-        # forgets earlier batches shows up here as well
-        ex.set_cells(cells[:1])
-        s0, a0 = (sheet, addrs[0]) if isinstance(addrs[0], str) else addrs[0]
-        D.eval_cell(ex, s0, *D.split_a1(a0))
-        ex.set_cells(cells[1:])
-    elif cells:
-        ex.set_cells(cells)
+    try:
+        if len(cells) > 1 and addrs:
+            # two batches with a query in between: the final state is that of one batch (C04), an implementation that
+            # forgets earlier batches shows up here as well
+            ex.set_cells(cells[:1])
+            s0, a0 = (sheet, addrs[0]) if isinstance(addrs[0], str) else addrs[0]
+            D.eval_cell(ex, s0, *D.split_a1(a0))
+            ex.set_cells(cells[1:])
+        elif cells:
+            ex.set_cells(cells)
+    except Exception as e:  # noqa - an override the Executor refuses is an outcome of every query that follows
+        if stats is not None:
+            stats['x:set_cells_refused'] += 1
+        return [('SET_CELLS_EXC:' + type(e).__name__, str(e)[:200])] * len(addrs)
     out = []
     for a in addrs:
         s, a = (sheet, a) if isinstance(a, str) else a
